@@ -2,10 +2,12 @@
 # Multi-seed soak of every quick check on the unchanged tree: any non-zero exit is a false alarm
 # (or a genuine finding) to investigate.  tools/soak.sh <first-seed> <last-seed> [props...]
 A=$1; B=$2; shift 2
-PROPS=${@:-$(ls /verif/tools/props | sed 's/.json//')}
+ROOT=$(cd "$(dirname "$0")/.." && pwd)
+PROPS=${@:-$(ls $ROOT/tools/props | sed 's/.json//')}
+$ROOT/check --setup > /dev/null 2>&1
 for s in $(seq $A $B); do
   for p in $PROPS; do
-    out=$(VERIF_SEED=$s /verif/check $p quick 2>&1); rc=$?
+    out=$(VERIF_SEED=$s $ROOT/check $p quick 2>&1); rc=$?
     echo "seed=$s $p rc=$rc $(echo "$out" | grep -E 'VIOLATION|KNOWN' | head -2 | tr '\n' ' ')"
   done
 done
